@@ -13,7 +13,7 @@ EXPLANATION = (
     "id() values; E4 sibling lists are edited only by identity-based removal and append-at-end on the list as read after the last "
     "user code ran (any other list operation on a children list, and an edit of a list read before a hook, is reported); E5 children assignment detaches all former children before attaching, iterates the "
     "validated tuple itself in order assigning child.parent = node, and the Node/AnyNode/SymlinkNode constructors delegate "
-    "parent=/children= to the setters. Checked on all abstract traces of the entry points of both mixins. Not decided: "
+    "parent=/children= to the setters. E6 a cached children tuple (memo field) is dropped next to every list write (as C01 W9). Checked on all abstract traces of the entry points of both mixins. Not decided: "
     "that the resulting concrete forest equals the specification for every state, termination of the ancestor walk, "
     "which error class wins when several apply."
 )
@@ -26,6 +26,10 @@ ASSUMPTIONS = [
 def run(ctx):
     typer = typer_for(ctx)
     linkrules.rule_E3(ctx, typer)
+    # a value cached from the links (memo field) is dropped together with every change of those links: otherwise the public
+    # `children` view disagrees with the stored links right after a mutation
+    from ..memo import rule_coherence
+    rule_coherence(ctx, "E6")
     linkrules.rule_E5_constructors(ctx, typer)
     ctx.floor("E3", 2)
     ctx.floor("E5c", 6)
